@@ -684,14 +684,25 @@ def write_if_changed(path, text):
 
 def main():
     repo, outdir = sys.argv[1], sys.argv[2]
+    # the two generated files are independent: the constants (FpParams) feed every model, the limb
+    # arithmetic (FpOps) only the theorems of C09.  Exit 3: the arithmetic could not be translated
+    # (FpOps.lean is left as it was); exit 4: the constants could not be translated.
+    rc = 0
+    ch = False
+    try:
+        b = gen_params(repo)
+        ch |= write_if_changed(os.path.join(outdir, "FpParams.lean"), b)
+    except TErr as e:
+        sys.stderr.write("TRANSLATION-ERROR (constants, src/fp.rs): %s\n" % e)
+        rc = 4
     try:
         a = gen_ops(repo)
-        b = gen_params(repo)
+        ch |= write_if_changed(os.path.join(outdir, "FpOps.lean"), a)
     except TErr as e:
-        sys.stderr.write("TRANSLATION-ERROR: %s\n" % e)
-        sys.exit(3)
-    ch = write_if_changed(os.path.join(outdir, "FpOps.lean"), a)
-    ch |= write_if_changed(os.path.join(outdir, "FpParams.lean"), b)
+        sys.stderr.write("TRANSLATION-ERROR (limb arithmetic, src/fp/ops.rs): %s\n" % e)
+        rc = rc or 3
+    if rc:
+        sys.exit(rc)
     print("rs2lean: ok%s" % (" (regenerated)" if ch else " (unchanged)"))
 
 if __name__ == "__main__":
